@@ -6,6 +6,7 @@ import SV.TxCache.SelOrderProofs
 import SV.TxCache.GreedySpec
 import SV.TxCache.HeapModel
 import SV.TxCache.ReachableProofs
+import SV.GenProofs
 namespace SV.Props.C03
 open SV SV.TxCache
 
@@ -71,5 +72,15 @@ theorem greedy_on_every_reachable_pool (U : Bytes → Tx) (cfg : Config) (ops : 
       selectFromBunches Variant.current s q (L'.map (·.2)) = select Variant.current p s q) ∧
     (∀ p' : Pool, p'.lists.Perm p.lists → select Variant.current p' s q = select Variant.current p s q) :=
   reachable_selection_is_greedy U cfg ops hw s q
+
+/-! ### tie by translation: the source's own leaf logic (regenerated into SV/Generated/Funcs.lean on every run) IS the model's -/
+theorem source_comparator_is_the_models (a b : Tx) :
+    moreValuable Variant.current a b =
+      Gen.moreValuable (GenProofs.sat64 (a.ppu Variant.current)) (GenProofs.sat64 (b.ppu Variant.current))
+        a.gasLimit b.gasLimit a.hash b.hash (a.ppu Variant.current) (b.ppu Variant.current) := GenProofs.moreValuable_eq a b
+theorem source_comparator_reads (_ : Unit) :
+    Gen.moreValuable_leaves = ["wrappedTx.PricePerUnit : Int", "otherTransaction.PricePerUnit : Int", "wrappedTx.Tx.GetGasLimit() : Int",
+      "otherTransaction.Tx.GetGasLimit() : Int", "wrappedTx.TxHash : Bytes", "otherTransaction.TxHash : Bytes",
+      "wrappedTx.computeExactPricePerUnit() : Int", "otherTransaction.computeExactPricePerUnit() : Int"] := GenProofs.moreValuable_leaves
 
 end SV.Props.C03
